@@ -113,6 +113,13 @@ impl Condvar {
         T: Send + 'static,
         F: FnMut(&mut T) -> bool,
     {
+        // The harness ends every execution by moving the clock to the end of time, so that every
+        // armed timer expires and every task terminates.  A timed wait that only starts after that
+        // (a timer thread that was never scheduled before) has nobody left to wake it: it elapses at once.
+        if clock::now_unlocked() == u64::MAX {
+            let timed_out = condition(&mut *guard);
+            return Ok((guard, WaitTimeoutResult(timed_out)));
+        }
         let deadline = clock::now_unlocked().saturating_add(dur.as_millis() as u64);
         let elapsed = Arc::new(AtomicBool::new(false));
         let active = Arc::new(AtomicBool::new(true));
